@@ -578,10 +578,10 @@ class Poly:
 class RBool:
   """an undecided predicate over polynomials in the ring algebra; becomes a truth value only through a
   contract-supplied branch hint"""
-  __slots__ = ('key', 'text')
+  __slots__ = ('key', 'text', 'op', 'kids')
 
-  def __init__(self, key, text):
-    self.key, self.text = key, text
+  def __init__(self, key, text, op=None, kids=()):
+    self.key, self.text, self.op, self.kids = key, text, op, tuple(kids)
 
 
 class Ratio:
@@ -920,20 +920,35 @@ class RingAlg(Alg):
   def truth(self, rb):
     h = self.cmp_hints.get(rb.key)
     if h is not None:
-      self.hints_used.append((rb.text, h[0], h[1]))
+      self.hints_used.append((rb.text[:80], h[0], h[1]))
       return h[0]
-    raise Unsupported('predicate `%s` on non-constant polynomials needs a branch hint' % rb.text)
+    # composite predicates: decided from the truth of their parts (each part needs its own hint)
+    if rb.op == 'and':
+      return all(self.truth(k) for k in rb.kids)
+    if rb.op == 'not':
+      return not self.truth(rb.kids[0])
+    if rb.op == 'or':
+      unknown = False
+      for k in rb.kids:
+        try:
+          if self.truth(k):
+            return True
+        except Unsupported:
+          unknown = True
+      if not unknown:
+        return False
+    raise Unsupported('predicate `%s` on non-constant polynomials needs a branch hint' % rb.text[:200])
 
   def _and(self, a, b):
-    return RBool(('and', frozenset([a.key, b.key])), '(%s) & (%s)' % (a.text, b.text))
+    return RBool(('and', frozenset([a.key, b.key])), '(%s) & (%s)' % (a.text, b.text), 'and', (a, b))
 
   def _or(self, a, b):
     ka = a.key[1] if a.key[0] == 'or' else frozenset([a.key])
     kb = b.key[1] if b.key[0] == 'or' else frozenset([b.key])
-    return RBool(('or', ka | kb), '(%s) | (%s)' % (a.text, b.text))
+    return RBool(('or', ka | kb), '(%s) | (%s)' % (a.text, b.text), 'or', (a, b))
 
   def _not(self, a):
-    return RBool(('not', a.key), '!(%s)' % a.text)
+    return RBool(('not', a.key), '!(%s)' % a.text, 'not', (a,))
 
   def _ite(self, c, a, b):
     return a if self.truth(c) else b
